@@ -10,7 +10,8 @@
 #include "Channel.h"
 
 ezc3d::DataNS::AnalogsNS::Channel::Channel(const std::string &name) :
-    _name(name)
+    _name(name),
+    _data(0)
 {
     ezc3d::removeTrailingSpaces(_name);
 }
